@@ -1,5 +1,6 @@
 """Engine A tie: run zeep's XSD decoder / renderer and the Lean model on the same inputs."""
 import collections
+import json
 import random
 import sys
 
@@ -128,10 +129,23 @@ def canon_value(v):
         return [canon_value(x) for x in v]
     if isinstance(v, etree._Element):
         return {"__xml__": xmlcanon.node(v, strip_ws=False)}
+    return lex_of_native(v)
+
+
+def lex_of_native(v):
+    """canonical lexical form of a decoded leaf (the forms harness/valgen.py VLEAVES lists)"""
+    import base64
+    import datetime
     if v is None:
         return None
     if isinstance(v, bool):
         return "true" if v else "false"
+    if isinstance(v, bytes):
+        return base64.b64encode(v).decode()
+    if isinstance(v, float):
+        return {"inf": "INF", "-inf": "-INF", "nan": "NaN"}.get(repr(v), repr(v))
+    if isinstance(v, (datetime.datetime, datetime.date)):
+        return v.isoformat()
     return str(v)
 
 
@@ -180,7 +194,7 @@ def _canon_under(d, ty):
         decl = decls.get(k["t"][1])
         kids.append(_canon_under(k, decl["ty"]) if decl else k)
     if ty["content"]["k"] == "all":
-        kids = sorted(kids, key=lambda x: repr(x))
+        kids = sorted(kids, key=lambda x: (x["t"][0] or "", x["t"][1], json.dumps(x, sort_keys=True)))
     return dict(d, k=kids)
 
 
@@ -200,34 +214,35 @@ def default_fields(p, out):
         out[n] = [] if multiple(p) else None
     elif k in ("seq", "all", "choice", "group"):
         if n is not None:
-            # repeating container: Choice.default_value is an empty dict, Indicator.default_value a nested dict (K9)
-            if k == "choice":
-                out[n] = {}
-            else:
-                d = {}
-                for c in (p["ps"] if k != "group" else [p["p"]]):
-                    default_fields(c, d)
-                out[n] = {"_value_1": d}
+            # repeating container: the default is an empty list
+            out[n] = []
         else:
             for c in (p["ps"] if k != "group" else [p["p"]]):
                 default_fields(c, out)
 
 
+def _lst(flag, text):
+    """a list-typed leaf decodes to the list of its items"""
+    if flag and text is not None:
+        return text.split()
+    return text
+
+
 def item_value(ty, item):
     if "leaf" in item:
-        return item["leaf"]
+        return _lst(ty.get("list"), item["leaf"])
     if "none" in item:
         return None
     if "any" in item:
         return {"__xml__": item["any"]}
     if "sc" in item:
-        out = {ty.get("valname", "_value_1"): item["sc"]}
+        out = {ty.get("valname", "_value_1"): _lst(ty.get("list"), item["sc"])}
         for a in ty["attrs"]:
             out[a["attr"]] = None
         for q, v in item["attrs"]:
             for a in ty["attrs"]:
                 if a["q"] == q:
-                    out[a["attr"]] = v
+                    out[a["attr"]] = _lst(a.get("list"), v)
         return out
     # complex
     out = collections.OrderedDict()
@@ -251,7 +266,7 @@ def item_value(ty, item):
     for q, v in item["attrs"]:
         for a in ty["attrs"]:
             if a["q"] == q:
-                out[a["attr"]] = v
+                out[a["attr"]] = _lst(a.get("list"), v)
     if item.get("raw"):
         out["_raw_elements"] = [{"__xml__": n} for n in item["raw"]]
     return dict(out)
@@ -340,3 +355,57 @@ def classify_doc(case, doc):
             if p["type"] in xsdgen.LEAVES and (e.text is None or e.text == "") and e.get("{%s}nil" % XSI) != "true":
                 cls.add("K7")
     return cls
+
+
+# ---------------------------------------------------------------------------- render side (C01 / C02 / C12)
+
+class VCase(Case):
+    """a schema of the values profile with zeep's keyword names recorded on the source AST"""
+
+    def __init__(self, seed, profile="values", src=None):
+        from harness import valgen
+        rng = random.Random("V-%s-%s" % (profile, seed))
+        if src is None:
+            src = valgen.VGen(rng, profile).schema()
+        super().__init__(seed, profile, src=src)
+        self.rng = rng
+        valgen.annotate(self.src, self.schemas[True][0])
+
+    def value(self, j):
+        """the j-th value of this schema: (value, features, the PRNG every later choice for this value is drawn from)"""
+        from harness import valgen
+        rng = random.Random("val-%s-%s-%s" % (self.profile, self.seed, j))
+        g = valgen.Val(self.src, rng)
+        st = g.root()
+        return st, g.features, rng
+
+
+def roundtrip(case, st, style="mixed", rng=None):
+    """construct -> render -> (validate) -> parse on the implementation.
+    returns dict(stage=..., error=...) or dict(stage='done', node, obj_in, obj_out, kwargs)"""
+    from harness import valgen
+    z = _zeep()
+    zs, root = case.schemas[True]
+    caller = valgen.Caller(case.src, zs, rng or case.rng, style)
+    out = {}
+    try:
+        kwargs = caller.struct_fields(st)
+        out["kwargs"] = valgen.canon(kwargs)
+        obj_in = root(**kwargs)
+    except Exception as e:  # noqa
+        return dict(out, stage="construct", error="%s: %s" % (type(e).__name__, str(e)[:200]))
+    rr = impl_render(case, obj_in)
+    if rr["outcome"] != "ok":
+        return dict(out, stage="render", error="%s: %s" % (rr["outcome"], rr.get("msg")))
+    node = rr["node"]
+    out["node"] = node
+    try:
+        obj_out = root.parse(copy_node(node), zs)
+    except Exception as e:  # noqa
+        return dict(out, stage="parse", error="%s: %s" % (type(e).__name__, str(e)[:200]))
+    return dict(out, stage="done", obj_in=obj_in, obj_out=obj_out)
+
+
+def copy_node(node):
+    """what travels over the wire: serialise and parse again"""
+    return etree.fromstring(etree.tostring(node))
